@@ -135,6 +135,8 @@ func (w *WebsocketConnection) handlePing() {
 func (w *WebsocketConnection) closeWithError(err error, reason string) {
 	logging.Log().Debug(w.remoteSki, reason, err)
 	w.setConnClosedError(err)
+	// release the pumps and the socket; the connection is marked closed already
+	w.close()
 	w.dataProcessing.ReportConnectionError(err)
 }
 
@@ -219,10 +221,8 @@ func (w *WebsocketConnection) checkWebsocketMessage(msgType int, data []byte) er
 // close the current websocket connection
 func (w *WebsocketConnection) close() {
 	w.shutdownOnce.Do(func() {
-		if w.isConnClosed() {
-			return
-		}
-
+		// always stop the pumps and close the socket, even if the connection
+		// was already marked closed by an error path
 		w.setConnClosedError(nil)
 
 		close(w.closeChannel)
